@@ -46,4 +46,20 @@ Definition SetTransportPrivateData (p : bytes) (data : bytes) : Res bytes :=
   let? _ := slice p1 start e in
   let p2 := blit p1 start data in
   set_idx p2 (start - 1) (w8 (len data)).
+(* getters without the C05 guards *)
+Definition TransportPrivateData (p : bytes) : Res bytes :=
+  let? h := HasTransportPrivateData p in
+  if negb h then Err E.NoPrivateTransportData else
+  slice p (transportPrivateDataStart p) (adaptationExtensionStart p).
+Definition AdaptationFieldExtension (p : bytes) : Res bytes :=
+  let? h := HasAdaptationFieldExtension p in
+  if negb h then Err E.NoAdaptationFieldExtension else
+  slice p (adaptationExtensionStart p) (stuffingStart p).
+(* adaptationfield.TransportPrivateData: pkt[uint8(offset) : uint8(offset)+dataLength], uint8 arithmetic *)
+Definition fnTransportPrivateData (p : bytes) : Res bytes :=
+  if negb (bit (nthN p 5) 2) then Err E.NoPrivateTransportData else
+  let offset := transportPrivateDataStart p in
+  let dataLength := nthN p offset in
+  let offset := offset + 1 in
+  slice p (w8 offset) (w8 (w8 offset + dataLength)).
 End AFPinned.
